@@ -27,7 +27,7 @@ def showPlan : Except Err (List Op) → String
   | .error e => showErr e
   | .ok ops => showOps ops
 
-/-- `mpc T` | `dist T` | `plan DIST PACKS` | `auto T PACKS` | `after T COUNTS`
+/-- `mpc T` | `dist T` | `plan DIST PACKS` | `auto T PACKS` | `after T COUNTS` | `afterdup T D COUNTS FOREIGN`
 (`after`: per-pack revision counts, descending, after `_do_autopack` + execution)
 (DIST: comma list of naturals, PACKS: comma list of `count:id`, `-` = empty) -/
 def handle : List String → String
@@ -60,6 +60,20 @@ def handle : List String → String
       | .ok none => joinList ((sortDesc packs).map fun p => toString p.1)
       | .ok (some ops) => joinList ((sortDesc (executeOps packs ops)).map fun p => toString p.1)
     | _, _ => "bad-op"
+  | ["afterdup", t, d, cs, foreign] =>
+    -- a writer's `_do_autopack` + execution on its in-memory view `cs` (pack ids = rank in the
+    -- real pack order) with `d` duplicated revisions among the combined packs; `foreign` = packs
+    -- other writers added meanwhile (merged by `_save_pack_names`)
+    match t.toNat?, d.toNat?, parseNatList cs, parseNatList foreign with
+    | some t, some d, some cs, some foreign =>
+      let packs : List Pack := cs.zipIdx.map fun (c, i) => (c, i + 1)
+      let fp : List Pack := foreign.map fun c => (c, 0)
+      match doAutopack t packs with
+      | .error e => showErr e
+      | .ok none => "None " ++ joinList ((sortDesc (packs ++ fp)).map fun p => toString p.1)
+      | .ok (some ops) =>
+        showOps ops ++ " " ++ joinList ((sortDesc (executeOpsDup d packs ops ++ fp)).map fun p => toString p.1)
+    | _, _, _, _ => "bad-op"
   | _ => "bad-op"
 
 end BreezyVerif.C07
